@@ -2431,6 +2431,9 @@ def normalize_module(tree: ast.Module, extern=None) -> ast.Module:
                 for _ in range(2):
                     if not n2.collapse_aliases(n):
                         break
+    for n in ast.walk(tree):
+        if isinstance(n, ast.FunctionDef):
+            n2.propagate_block_function_aliases(n)
     tree = AttrCalls().visit(tree)
     n2.sort_keywords(tree)
     ntypes = _namedtuples(tree)
